@@ -132,8 +132,11 @@ class Family:
                 out.add("<factory>" + ca.id)
         return out
 
-    def local_classes(self, f: ast.FunctionDef, cname: str, name: str) -> Set[str]:
+    def local_classes(self, f: ast.FunctionDef, cname: str, name: str, _seen: Tuple[str, ...] = ()) -> Set[str]:
         out: Set[str] = set()
+        if name in _seen:
+            return {"?"}
+        _seen = _seen + (name,)
         for st in statements(f):
             if isinstance(st, ast.Assign) and any(isinstance(t, ast.Name) and t.id == name for t in st.targets):
                 v = st.value
@@ -149,7 +152,49 @@ class Family:
                     out.add(cname)
                 else:
                     out.add("?")
+        # a loop variable over a literal tuple/list of objects:  for x in (self.a, self.b): x.decode(...)
+        for st in ast.walk(f):
+            if isinstance(st, (ast.For, ast.comprehension)) and isinstance(st.target, ast.Name) and st.target.id == name:
+                if not isinstance(st.iter, (ast.Tuple, ast.List)) or not st.iter.elts:
+                    out.add("?")
+                    continue
+                for e in st.iter.elts:
+                    if is_self_attr(e):
+                        cs = {x for x in self.attr_classes(cname, e.attr) if not x.startswith("<factory>")}
+                        out |= cs or {"?"}
+                    elif isinstance(e, ast.Name) and e.id != name:
+                        out |= self.local_classes(f, cname, e.id, _seen) or {"?"}
+                    elif isinstance(e, ast.Call) and isinstance(e.func, ast.Name) and e.func.id in self.classes:
+                        out.add(e.func.id)
+                    else:
+                        out.add("?")
         return out
+
+    @staticmethod
+    def _getattr_names(f: ast.FunctionDef, recv) -> Optional[List[str]]:
+        """Attribute names of  getattr(self, <name>)  when they are known: a string literal, or a loop variable over a literal tuple/list of
+        string literals that is bound nowhere else in the function."""
+        if not (isinstance(recv, ast.Call) and isinstance(recv.func, ast.Name) and recv.func.id == "getattr" and len(recv.args) == 2 and not recv.keywords
+                and isinstance(recv.args[0], ast.Name) and f.args.args and recv.args[0].id == f.args.args[0].arg == "self"):
+            return None
+        a = recv.args[1]
+        if isinstance(a, ast.Constant) and isinstance(a.value, str):
+            return [a.value]
+        if not isinstance(a, ast.Name):
+            return None
+        names: List[str] = []
+        binders = 0
+        for st in ast.walk(f):
+            if isinstance(st, ast.Name) and st.id == a.id and isinstance(st.ctx, (ast.Store, ast.Del)):
+                binders += 1
+            if isinstance(st, (ast.For, ast.comprehension)) and isinstance(st.target, ast.Name) and st.target.id == a.id:
+                if not (isinstance(st.iter, (ast.Tuple, ast.List)) and st.iter.elts and all(isinstance(e, ast.Constant) and isinstance(e.value, str) for e in st.iter.elts)):
+                    return None
+                names.extend(e.value for e in st.iter.elts)
+        loops = sum(1 for st in ast.walk(f) if isinstance(st, (ast.For, ast.comprehension)) and isinstance(st.target, ast.Name) and st.target.id == a.id)
+        if not names or binders != loops or a.id in [x.arg for x in f.args.args]:
+            return None
+        return names
 
     def resolve(self, key: Tuple[str, str], f: ast.FunctionDef, c: ast.Call):
         """-> list of callee keys | "harmless" | "ctor" | "raiser" | None (unclassified)."""
@@ -186,6 +231,9 @@ class Family:
                 return None
             if isinstance(recv, ast.Name) and recv.id in self.classes and self.func(recv.id, fn.attr) is not None:
                 return [(recv.id, fn.attr)]          # _OPTHeader.fromRRHeader(r)
+            if (cname and isinstance(recv, ast.Name) and f.args.args and recv.id == f.args.args[0].arg and recv.id != "self"
+                    and any(dotted(d) == "classmethod" for d in f.decorator_list) and self.func(cname, fn.attr) is not None):
+                return [(cname, fn.attr)]            # cls.helper(...) inside a classmethod: same resolution as self.helper(...)
             if fn.attr in ("decode", "fromStr", "parseRecords", "encode"):
                 # family-style call on an object: resolve the receiver's class
                 if src(recv).endswith(".payload") and fn.attr == "decode":
@@ -195,6 +243,10 @@ class Family:
                     cands = {x for x in self.attr_classes(cname, recv.attr) if not x.startswith("<factory>")}
                 elif isinstance(recv, ast.Name):
                     cands = self.local_classes(f, cname, recv.id)
+                elif self._getattr_names(f, recv) is not None:   # getattr(self, "a") / getattr(self, n) with n looping over literal names
+                    for an in self._getattr_names(f, recv):
+                        cs = {x for x in self.attr_classes(cname, an) if not x.startswith("<factory>")}
+                        cands |= cs or {"?"}
                 if fn.attr == "decode" and c.args and not (isinstance(c.args[0], ast.Name)):
                     return "raiser-bytes-decode"      # bytes.decode("ascii"): UnicodeDecodeError is a ValueError
                 if fn.attr == "decode" and c.args and isinstance(c.args[0], ast.Constant):
@@ -688,6 +740,25 @@ def _percent_count(fmt: str) -> Optional[int]:
     return n
 
 
+def _none_test(test, name):
+    """True if `test` holds exactly when `name is None`, False if exactly when it is not None, else None (either polarity, `not` peeled)."""
+    flip = False
+    while isinstance(test, ast.UnaryOp) and isinstance(test.op, ast.Not):
+        test, flip = test.operand, not flip
+    if not (isinstance(test, ast.Compare) and len(test.ops) == 1):
+        return None
+    a, b = test.left, test.comparators[0]
+    if isinstance(a, ast.Constant) and a.value is None:
+        a, b = b, a
+    if not (isinstance(a, ast.Name) and a.id == name and isinstance(b, ast.Constant) and b.value is None):
+        return None
+    if isinstance(test.ops[0], (ast.Is, ast.Eq)):
+        return not flip
+    if isinstance(test.ops[0], (ast.IsNot, ast.NotEq)):
+        return flip
+    return None
+
+
 def check_escape(ctx, fam: Family):
     mod = fam.mod
     n_unpack = n_ord = n_idx = n_raise = 0
@@ -713,7 +784,7 @@ def check_escape(ctx, fam: Family):
                     if _exc_allowed(mod, name):
                         ctx.ok("escape/explicit-raise", ctx.construct(q, n), name)
                         continue
-                    under_none = length_param is not None and any(src(g.node(t).ast) == f"{length_param} is None" and lab == "T" for i in ids for t, lab in g.edge_guards(i))
+                    under_none = length_param is not None and bool(ids) and all(any(_none_test(g.node(t).ast, length_param) == (lab == "T") for t, lab in g.edge_guards(i)) for i in ids)
                     if under_none:
                         ctx.ok("escape/explicit-raise", ctx.construct(q, n), f"only when `{length_param} is None`; every family call site supplies the length (rule escape/length-supplied)")
                         continue
@@ -846,8 +917,10 @@ def check_escape(ctx, fam: Family):
                     exc = "ZeroDivisionError" if isinstance(n.op, (ast.Div, ast.FloorDiv, ast.Mod)) else "ValueError"
                     ctx.check(okc or exc == "ValueError" or _handled(g, g.ids_of(n), exc), "escape/arithmetic", cons,
                               f"the right operand of `{src(n)}` comes from the message: {exc} can escape")
-    ctx.floor("escape/unpack-size", n_unpack, 15, "struct.unpack sites")
-    ctx.floor("escape/ord-single-byte", n_ord, 3, "ord() sites")
+    # one byte is read either as ord(read(1)) or as struct.unpack("!B", read(1)): a refactor may move a site from one spelling to the other, so the
+    # floor (the rule has not gone blind) is on the two kinds of site together
+    ctx.floor("escape/unpack-size+ord-single-byte", n_unpack + n_ord, 18, "struct.unpack and ord() sites")
+    ctx.floor("escape/unpack-size", n_unpack, 12, "struct.unpack sites")
     ctx.floor("escape/explicit-raise", n_raise, 2, "raise statements")
     # every callee classified
     for key, c in fam.unclassified:
@@ -1271,6 +1344,8 @@ def check(ctx):
 
 
 MUTANTS = [
+    Mutant("unknown-record-raise-after-inverted-guard", DNS, "        if length is None:\n            raise Exception(\"must know length for unknown record types\")\n        self.data = readPrecisely(strio, length)\n",
+           "        if length is None:\n            self.data = b\"\"\n            return\n        raise Exception(\"must know length for unknown record types\")\n", expect_rule="escape/explicit-raise"),
     Mutant("query-reads-three-bytes", DNS, "        buff = readPrecisely(strio, 4)\n        self.type, self.cls = struct.unpack(\"!HH\", buff)\n",
            "        buff = readPrecisely(strio, 3)\n        self.type, self.cls = struct.unpack(\"!HH\", buff)\n", expect_rule="escape/unpack-size"),
     Mutant("soa-format-grown", DNS, '        r = struct.unpack("!LlllL", readPrecisely(strio, 20))\n', '        r = struct.unpack("!LlllLL", readPrecisely(strio, 20))\n', expect_rule="escape/unpack-size"),
@@ -1324,6 +1399,21 @@ MUTANTS = [
 ]
 
 SILENT = [
+    # shapes of the behaviour-preserving refactors C32r3 / C32r4 (cross sweep): guard clause before the length-less raise, objects decoded in a loop
+    # over a literal tuple, attributes named by a loop over literal strings, a classmethod handing the option loop to a static helper
+    Silent("unknown-record-raise-after-guard-clause", DNS, "        if length is None:\n            raise Exception(\"must know length for unknown record types\")\n        self.data = readPrecisely(strio, length)\n",
+           "        if length is not None:\n            self.data = readPrecisely(strio, length)\n            return\n        raise Exception(\"must know length for unknown record types\")\n"),
+    Silent("soa-names-decoded-in-a-loop", DNS, "        self.mname.decode(strio)\n        self.rname.decode(strio)\n", "        for domainName in (self.mname, self.rname):\n            domainName.decode(strio)\n"),
+    Silent("naptr-fields-decoded-by-name", DNS, "        self.flags.decode(strio)\n        self.service.decode(strio)\n        self.regexp.decode(strio)\n        self.replacement.decode(strio)\n",
+           "        for fieldName in (\"flags\", \"service\", \"regexp\", \"replacement\"):\n            getattr(self, fieldName).decode(strio)\n"),
+    Silent("opt-options-decoded-by-static-helper", DNS,
+           "            options = []\n            optionsBytes = BytesIO(rrHeader.payload.data)\n            optionsBytesLength = len(rrHeader.payload.data)\n            while optionsBytes.tell() < optionsBytesLength:\n"
+           "                o = _OPTVariableOption()\n                o.decode(optionsBytes)\n                options.append(o)\n\n        # Decode variable options if present\n",
+           "            options = cls._decodeOptions(rrHeader.payload.data)\n\n        # Decode variable options if present\n",
+           more=[(DNS, "            options=options,\n        )\n\n\n@implementer(IEncodable)\nclass _OPTVariableOption(",
+                  "            options=options,\n        )\n\n    @staticmethod\n    def _decodeOptions(optionBytes):\n        options = []\n        optionBuffer = BytesIO(optionBytes)\n        end = len(optionBytes)\n"
+                  "        while optionBuffer.tell() < end:\n            option = _OPTVariableOption()\n            option.decode(optionBuffer)\n            options.append(option)\n        return options\n\n\n"
+                  "@implementer(IEncodable)\nclass _OPTVariableOption(")]),
     Silent("read-and-unpack-helper", DNS, "def readPrecisely(file, l):\n", "def _readFields(file, fmt):\n    return struct.unpack(fmt, readPrecisely(file, struct.calcsize(fmt)))\n\n\ndef readPrecisely(file, l):\n",
            more=[(DNS, "        buff = readPrecisely(strio, 4)\n        self.type, self.cls = struct.unpack(\"!HH\", buff)\n", "        self.type, self.cls = _readFields(strio, \"!HH\")\n"),
                  (DNS, "            L = struct.unpack(\"!B\", readPrecisely(strio, 1))[0]\n", "            (L,) = _readFields(strio, \"!B\")\n"),
